@@ -173,7 +173,9 @@ impl From<&PcapPacket> for Vec<u8> {
     fn from(pkt: &PcapPacket) -> Self {
         let header = pkt.header.borrow().clone();
         let mut bytes: Vec<u8> = (&header).into();
-        if let Some(inner) = pkt.inner.borrow().clone() {
+        // a layer that could not be parsed is cached as an error object:
+        // it stands for no bytes, the captured ones are still the packet
+        if let Some(inner) = pkt.inner.borrow().clone().filter(|i| !i.is_error()) {
             let data: Vec<u8> = inner.as_ref().into();
             bytes.extend_from_slice(&data);
         } else {
